@@ -68,6 +68,58 @@ type VerifC10Obs struct {
 	Late    string   `json:"late"`    // return of a sendRequest issued after everything
 	LateCbs int      `json:"lateCbs"` // callbacks of that late request
 	Hang    string   `json:"hang,omitempty"`
+	// The callbacks RETAIN the responses they are handed (the pointer, no copy); Cbs is what they hold
+	// when the whole scenario has ended, CbsCall what each saw at the moment it was called (same
+	// order of the sorted lists' underlying sequence: compared as sorted lists), Shared: two callbacks
+	// were handed the very same message object
+	CbsCall [][]int `json:"cbsCall"`
+	Shared  bool    `json:"shared,omitempty"`
+}
+
+// verifC10Kept is one response a callback keeps.
+type verifC10Kept struct {
+	i     int
+	name  string
+	resp  *conformancev1.ClientCompatResponse
+	vCall int
+}
+
+// verifC10RespCode: m >= 0 the response is the one the scripted client wrote for name m and it was
+// handed to the callback of the request with that name; -2 otherwise
+func verifC10RespCode(want, name string, resp *conformancev1.ClientCompatResponse) int {
+	if resp != nil && name == want && resp.GetTestName() == name {
+		if p := resp.GetResponse().GetPayloads(); len(p) == 1 && string(p[0].GetData()) == name {
+			return verifC10Index(resp.GetTestName())
+		}
+	}
+	return -2
+}
+
+// verifC10Settle looks at the kept responses again (after the scenario has ended) and reports the
+// values per request at the end and at call time, and whether two callbacks share one object.
+func verifC10Settle(n int, kept []verifC10Kept, wantOf func(i int) string) (end, call [][]int, shared bool) {
+	end, call = make([][]int, n), make([][]int, n)
+	for i := range end {
+		end[i], call[i] = []int{}, []int{}
+	}
+	seen := map[*conformancev1.ClientCompatResponse]bool{}
+	for _, k := range kept {
+		v := k.vCall
+		if k.resp != nil {
+			v = verifC10RespCode(wantOf(k.i), k.name, k.resp)
+			if seen[k.resp] {
+				shared = true
+			}
+			seen[k.resp] = true
+		}
+		end[k.i] = append(end[k.i], v)
+		call[k.i] = append(call[k.i], k.vCall)
+	}
+	for i := range end {
+		sort.Ints(end[i])
+		sort.Ints(call[i])
+	}
+	return end, call, shared
 }
 
 func VerifC10Name(m int) string { return "n" + strconv.Itoa(m) }
@@ -250,6 +302,7 @@ func VerifC10Run(spec VerifC10Spec) VerifC10Obs {
 	defer func() { go runner.stop() }()
 
 	var mu sync.Mutex
+	var kept []verifC10Kept
 	callback := func(i int) func(string, *conformancev1.ClientCompatResponse, error) {
 		want := VerifC10Name(spec.Names[i])
 		return func(name string, resp *conformancev1.ClientCompatResponse, err error) {
@@ -268,16 +321,13 @@ func VerifC10Run(spec VerifC10Spec) VerifC10Obs {
 				}
 			}
 			if err == nil {
-				v = -2
-				if resp != nil && name == want && resp.GetTestName() == name {
-					v = verifC10Index(resp.GetTestName())
-					if p := resp.GetResponse().GetPayloads(); len(p) != 1 || string(p[0].GetData()) != name {
-						v = -2 // some other test's content
-					}
-				}
+				v = verifC10RespCode(want, name, resp)
+			} else {
+				resp = nil
 			}
 			mu.Lock()
 			obs.Cbs[i] = append(obs.Cbs[i], v)
+			kept = append(kept, verifC10Kept{i: i, name: name, resp: resp, vCall: v}) // the pointer is kept, not a copy
 			mu.Unlock()
 		}
 	}
@@ -375,9 +425,9 @@ func VerifC10Run(spec VerifC10Spec) VerifC10Obs {
 	mu.Lock()
 	defer mu.Unlock()
 	obs.LateCbs = lateCbs
-	for i := range obs.Cbs {
-		sort.Ints(obs.Cbs[i])
-	}
+	// everything has ended (all answers read, the reader finished, the client gone): what do the
+	// callbacks hold now?
+	obs.Cbs, obs.CbsCall, obs.Shared = verifC10Settle(n, kept, func(i int) string { return VerifC10Name(spec.Names[i]) })
 	return obs
 }
 
